@@ -380,7 +380,7 @@ Definition has_arm (a : select_arm) (l : list select_arm) : bool := existsb (arm
 Definition events_shape_ok : bool :=
   (* receive(): loops on try_receive(), waits on the plain, priority and timer-command channels and
      on the alarm of the first timer; never on a default *)
-  RECEIVE_LOOPS_ON_TRY_RECEIVE && has_arm ArmPlain RECEIVE_ARMS && has_arm ArmPrio RECEIVE_ARMS &&
+  RECEIVE_LOOPS_ON_TRY_RECEIVE && RECEIVE_ARM_BODIES_OK && RECEIVE_TIMEOUT_ARM_BODIES_OK && has_arm ArmPlain RECEIVE_ARMS && has_arm ArmPrio RECEIVE_ARMS &&
   has_arm ArmCmd RECEIVE_ARMS && has_arm ArmAlarm RECEIVE_ARMS && negb (has_arm ArmDefault RECEIVE_ARMS) &&
   negb (has_arm ArmOther RECEIVE_ARMS) &&
   RECEIVE_TIMEOUT_LOOPS_ON_TRY_RECEIVE && has_arm ArmPlain RECEIVE_TIMEOUT_ARMS && has_arm ArmPrio RECEIVE_TIMEOUT_ARMS &&
